@@ -45,6 +45,65 @@ def _outcome_stats(logs: Dict[int, List[list]]) -> Dict[str, int]:
     return stats
 
 
+def _segments(log: List[list]) -> List[dict]:
+    """Top-level calls of every task: callee, whether its body was entered, what the caller got."""
+    depth = {}  # type: Dict[int, int]
+    cur = {}  # type: Dict[int, dict]
+    out = []
+    for ev in log:
+        e, t = ev[0], ev[1]
+        if e == "call":
+            d = depth.get(t, 0)
+            if d == 0:
+                cur[t] = {"t": t, "f": ev[2], "o": ev[3], "a": ev[4], "body": False, "nested": 0, "ret": None}
+            else:
+                cur[t]["nested"] += 1
+            depth[t] = d + 1
+        elif e == "ret":
+            d = depth.get(t, 0) - 1
+            depth[t] = max(d, 0)
+            if d == 0 and t in cur:
+                cur[t]["ret"] = (ev[6], ev[5])
+                out.append(cur.pop(t))
+        elif e == "body.in" and t in cur and depth.get(t, 0) == 1 and ev[2] == cur[t]["f"]:
+            cur[t]["body"] = True
+    return out
+
+
+def verdict_clauses(expected: List[list], recorded: List[list], prog: dict) -> List[Tuple[str, str]]:
+    """Verdict-level comparison of the top-level calls (independent of where the logs diverge first)."""
+    from icv.attribute import role_of, VIOLATION_CLS
+    res = []
+    for se, sr in zip(_segments(expected), _segments(recorded)):
+        if (se["t"], se["f"], se["a"]) != (sr["t"], sr["f"], sr["a"]) or se["ret"] is None or sr["ret"] is None:
+            break
+        if se["nested"] or sr["nested"]:
+            continue   # nested calls: re-entrancy semantics, judged by the event-level clauses
+        if se["ret"] == sr["ret"] and se["body"] == sr["body"]:
+            continue
+        ecls, ev_ = se["ret"]
+        rcls, rv_ = sr["ret"]
+        what = "call of callable {} with argument {}: expected body entered={} outcome {}, observed body entered={} " \
+               "outcome {}".format(se["f"], se["a"], se["body"], se["ret"], sr["body"], sr["ret"])
+        erole = role_of(prog, ev_) if ecls in VIOLATION_CLS else ""
+        rrole = role_of(prog, rv_) if rcls in VIOLATION_CLS else ""
+        if se["body"] and not sr["body"] and rrole == "pre":
+            res.append(("pre.blocked_while_effpre_true", what))
+        elif not se["body"] and sr["body"] and erole == "pre":
+            res.append(("pre.body_entered_while_effpre_false", what))
+        elif ecls == "ret" and rrole == "post":
+            res.append(("post.wrong_culprit", what))
+        elif erole == "post" and rcls == "ret":
+            res.append(("post.skipped_on_return", what))
+        elif erole == "inv" and rcls == "ret":
+            res.append(("inv.missing_after", what))
+        elif ecls == "ret" and rrole == "inv":
+            res.append(("inv.unexpected_evaluation", what))
+        elif ecls == "ret" and rcls == "ret" and ev_ != rv_:
+            res.append(("ret.result_identity", what))
+    return res
+
+
 def _mask_ip(log: List[list]) -> List[list]:
     return [ev[:9] + [[-1]] for ev in log]
 
@@ -58,6 +117,19 @@ def diagnose(res: CheckResult, name: str, mism: List[dict], cur: Dict[str, bool]
     if not mism:
         return 0
     batch = mism[:200]
+    # verdict-level oracle: what the top-level callers got vs what the specification's behaviour gives them
+    for it in batch:
+        if it.get("expected") and len(it["prog"]["drv"]) == 1:
+            for clause, what in verdict_clauses(it["expected"], it["log"], it["prog"])[:1]:
+                from icv.attribute import CLAUSES
+                props = CLAUSES.get(clause, set())
+                what = "family {}: {} (program {})".format(name, what, it["pid"])
+                if res.prop in props:
+                    res.violation(clause, what, {"signature": clause, "unit": name, "program": it["prog"],
+                                                 "recorded": it["log"], "expected": it["expected"]})
+                else:
+                    res.note("nonconformance outside {} (clause={} -> {}) in unit {}".format(
+                        res.prop, clause, ",".join(sorted(props)), name))
     items = []
     for it in batch:
         items.append(it)
